@@ -50,6 +50,12 @@ var templates = []func(m string) string{
 	func(m string) string { return m + "\r\n#EXTVLCOPT:" + m + ".ts" },
 	func(m string) string { return "<b>" + m + "</b>.mkv" },
 	func(m string) string { return m + ",\n" + m + ".m3u8" },
+	// metacharacters behind percent escapes (harmless as they stand; markup once something decodes them)
+	func(m string) string { return m + "%3Cscript%3E" + m + "%3C/script%3E" },
+	func(m string) string { return "%22%3E%3Cimg%20src=x%20onerror=" + m + "%3E" },
+	// a name that is nothing once commas and line breaks are taken out of it
+	func(m string) string { return ",\n," },
+	func(m string) string { return "\r\n" },
 }
 
 var idTemplates = []func(m string) string{ // six bytes
@@ -126,7 +132,12 @@ func benign(s string) string {
 
 func noCtl(s string) string {
 	var b strings.Builder
+	isHex := func(c byte) bool { return c >= '0' && c <= '9' || c >= 'a' && c <= 'f' || c >= 'A' && c <= 'F' }
 	for i := 0; i < len(s); i++ {
+		if s[i] == '%' && i+2 < len(s)+0 && i+2 <= len(s)-1 && isHex(s[i+1]) && isHex(s[i+2]) {
+			b.WriteByte(s[i]) // a well-formed percent escape stays (a stray '%' would make the URL unparseable)
+			continue
+		}
 		if s[i] >= 0x20 && s[i] != 0x7f && s[i] != '%' && s[i] != '#' {
 			b.WriteByte(s[i])
 		}
